@@ -339,7 +339,7 @@ Lemma static_acn_spec c ls : WSpec c (static_acn c ls).
 Proof.
   induction ls as [|l rest IH]; intros w TB SI; cbn [static_acn].
   - apply write_root_spec; auto.
-  - destruct (static_get (w_buf w) (w_static w) (l :: rest)) as [[pos|]|]; [apply write_ptr_spec; auto| |exact I].
+  - destruct (static_get (w_buf w) (mlen (w_buf w)) (w_static w) (l :: rest)) as [[pos|]|]; [apply write_ptr_spec; auto| |exact I].
     destruct (static_insert (mlen (w_buf w)) (w_static w)) as [es'|] eqn:EI.
     + unfold static_insert in EI.
       destruct ((mlen (w_buf w) <? static_ptr_limit) && _) eqn:G; [|discriminate]. injection EI as <-.
@@ -437,7 +437,7 @@ Qed.
 Lemma hash_acn_spec c ls : WSpec c (hash_acn c ls).
 Proof.
   intros w TB SI. unfold hash_acn.
-  destruct (hash_walk (w_buf w) (w_hash w) (rev ls) hash_root_pos) as [[position rest]| | |]; auto.
+  destruct (hash_walk (w_buf w) (mlen (w_buf w)) (w_hash w) (rev ls) hash_root_pos) as [[position rest]| | |]; auto.
   apply (WSpec_bind c (hash_write c (rev rest) position)
            (fun w1 => if position =? hash_root_pos then write_root c w1 else write_ptr c hash_ptr_tag position w1)); auto.
   - apply hash_write_spec.
